@@ -52,6 +52,7 @@ type Stmt struct {
 	Sel    string // one | first | last | all
 	Target string // struct | slice
 	End    int    // end offset of the statement's last token (SDef: the '}'; SBind: the target)
+	LBrace int    // SDef: end offset of the '{'  (where a nesting-limit error is reported)
 }
 
 // Diag is the first diagnostic the reference predicts for a rejected source.
@@ -272,10 +273,8 @@ func (p *parser) block() *Stmt {
 		}
 		st.BName = v.(string)
 	}
-	p.expectOp("{", "expected '{'")
-	if p.depth >= MaxNest {
-		p.sem(p.toks[p.i-1], "limit", "blocks nested too deep")
-	}
+	lb := p.expectOp("{", "expected '{'")
+	st.LBrace = lb.End
 	p.depth++
 	p.scopes = append(p.scopes, &scope{})
 	for !p.cur().Is("}") && !p.atEOF() {
